@@ -139,31 +139,46 @@ def decodeEntity (e : Str) : Option Char :=
         if n < 0x110000 ∧ xmlChar (Char.ofNat n) then some (Char.ofNat n) else none
     | _ => none
 
-/-- reader state inside an attribute value: the text so far, and the entity being read -/
+/-- reader state inside an attribute value: the text so far, the entity being read, and
+whether the previous raw character was a carriage return -/
 structure VS where
   acc : Str := []
   ent : Option Str := none
+  prevCR : Bool := false
   deriving DecidableEq, Repr
 
 /-- an attribute value up to the closing quote `q`, one code point per step;
-returns the value and what follows the quote -/
+returns the value and what follows the quote.  As in `encoding/xml`, a raw carriage return
+is read as a line feed and a line feed that directly follows a raw carriage return is
+dropped (`\r\n` and `\r` become `\n`); character references are not touched by this. -/
 def readValue (q : Char) : Str → VS → Option (Str × Str)
   | [], _ => none
   | c :: cs, st =>
     match st.ent with
     | none =>
       if c = q then some (st.acc, cs)
-      else if c = '&' then readValue q cs { st with ent := some [] }
+      else if c = '&' then readValue q cs { st with ent := some [], prevCR := false }
       else if c = '<' then none
-      else if xmlChar c then readValue q cs { st with acc := st.acc ++ [c] }
+      else if c = '\r' then readValue q cs { st with acc := st.acc ++ ['\n'], prevCR := true }
+      else if c = '\n' ∧ st.prevCR = true then readValue q cs { st with prevCR := false }
+      else if xmlChar c then readValue q cs { st with acc := st.acc ++ [c], prevCR := false }
       else none
     | some e =>
       if c = ';' then
         match decodeEntity e with
-        | some d => readValue q cs { acc := st.acc ++ [d], ent := none }
+        | some d => readValue q cs { acc := st.acc ++ [d], ent := none, prevCR := false }
         | none => none
       else if e.length ≥ 8 then none
       else readValue q cs { st with ent := some (e ++ [c]) }
+
+/-- what a reader makes of raw text with respect to line ends: `\r\n` and `\r` become `\n`
+(`prev`: the previous raw character was a carriage return) -/
+def normCR : Bool → Str → Str
+  | _, [] => []
+  | prev, c :: cs =>
+    if c = '\r' then '\n' :: normCR true cs
+    else if c = '\n' ∧ prev = true then normCR false cs
+    else c :: normCR false cs
 
 def isSpace (c : Char) : Bool := c = ' ' || c = '\t' || c = '\n' || c = '\r'
 
